@@ -39,7 +39,9 @@ def _indexed_generator(database, first):
             k = raw[-1].astype(jnp.int32)
             idx = ((k - base) // KEY_EP_MUL + first) % self._boards.shape[0]
             board = jnp.asarray(self._boards.take(idx, axis=0), dtype=jnp.int32) - 1
-            return State(board=board, action_mask=get_action_mask(board), key=key)
+            from harness import inject
+
+            return inject.state_like(super().__call__(key), board=board, action_mask=get_action_mask(board), key=key)
 
     return IndexedGenerator(database=database)
 
